@@ -457,7 +457,7 @@ func (p *parser) parseArrayLiteral() Node {
 	tt := p.cur.TokenType()
 	for tt != lexer.RBRACKET && tt != lexer.EOF {
 		n := p.parseExprWSS()
-		if n == nil {
+		if n == nil || !p.assertHasValue(n, "array element") {
 			return nil // previous error
 		}
 		elements = append(elements, n)
@@ -485,6 +485,16 @@ func (p *parser) parseArrayLiteral() Node {
 	}
 	arrayLit.Elements = elements
 	return wrapAny(arrayLit, arrayLit.T)
+}
+
+// assertHasValue reports an error for an element of an array or map
+// literal that has no value: the call of a function without return type.
+func (p *parser) assertHasValue(n Node, what string) bool {
+	if n.Type() != NONE_TYPE {
+		return true
+	}
+	p.appendErrorForToken("invalid "+what+", function has no return value", n.Token())
+	return false
 }
 
 func (p *parser) parseExprList() []Node {
@@ -558,7 +568,7 @@ func (p *parser) parseMapPairs(mapLit *MapLiteral) bool {
 		p.advance() // advance past COLON
 
 		n := p.parseExprWSS()
-		if n == nil {
+		if n == nil || !p.assertHasValue(n, "map value") {
 			return false // previous error
 		}
 		mapLit.Pairs[key] = n
